@@ -121,6 +121,12 @@ func c07StoreHandler(c *core.Ctx, p c04Params) {
 				probs = append(probs, ref.ValidateEventValues(ev, m.Data)...)
 				c.Obs("store_handler_events_validated", 1)
 			}
+			if strings.HasPrefix(m.Subject, "_INBOX.") {
+				// every request of this workload is a get: the result the handler builds from the
+				// stored (or default) value has the shape of its resource type
+				probs = append(probs, ref.ValidateGetResult(m.Data, cfg.Type)...)
+				c.Obs("store_handler_get_results_validated", 1)
+			}
 			for _, pr := range probs {
 				c.Violation("C07/store-handler:"+kind+":"+c07ProbClass(pr), fmt.Sprintf("store.Handler published %s %s: %s", m.Subject, short(m.Payload, 200), pr),
 					map[string]interface{}{"config": cfg, "subject": m.Subject, "payload": m.Payload, "before": before, "after": after})
